@@ -632,6 +632,11 @@ struct C16 : World {
     sel = (int)llabs(sel);
     vbi_bool ok = FALSE;
     is_cc = false;
+    // The page object is the caller's: give the library a defined one.  (vbi_format_vt_page()'s column_41() looks at rows
+    // 1-23 whatever display_rows is; with fewer rows fetched the 41st column of the rows that ARE displayed depended on what
+    // the stack held - found by the determinism gate of the thorough sweep, one run in 60 000, confirmed with valgrind.
+    // No given property covers reads of uninitialised caller memory; a run must be a pure function of its plan.)
+    memset((void*)&pg, 0, sizeof pg);
     if (!(sel & 1) && !avail.empty()) {
       auto& pr = avail[(size_t)(sel >> 1) % avail.size()];
       static const vbi_wst_level lv[4] = {VBI_WST_LEVEL_1, VBI_WST_LEVEL_1p5, VBI_WST_LEVEL_2p5, VBI_WST_LEVEL_3p5};
